@@ -50,8 +50,10 @@ ASSUMPTIONS = [
     "Crypt filter method Identity, per-stream Crypt filters, public-key handlers and object streams are outside this check (C05 / not produced).",
 ]
 
-# deviations still switched on in spec/MC_SecurityAlgorithms_{quick,thorough,mut_*}.cfg (= confirmed and not yet repaired)
-MODEL_DEV = {"h12": False, "ownerAbsent": True}
+# deviations still switched on in spec/MC_SecurityAlgorithms_{quick,thorough,mut_*}.cfg (= confirmed and not yet repaired);
+# both are repaired (fix: 44ea712, c09ccb6), as are streamdict.string (48a6296), password-over-127.R56 (4d4c742) and the
+# two Perms findings (8d25bb9); signatures come from Trace_SecurityAlgorithms' input classes
+MODEL_DEV = {"h12": False, "ownerAbsent": False}
 
 MUTANTS = [("MC_SecurityAlgorithms_mut_alg7.cfg", "AuthOwnerComplete"), ("MC_SecurityAlgorithms_mut_alg12.cfg", "AuthOwnerComplete")]
 
@@ -167,7 +169,9 @@ def run(tier):
     main_cfg = "MC_SecurityAlgorithms_thorough.cfg" if thorough else "MC_SecurityAlgorithms_quick.cfg"
     jobs = [(main_cfg, False, False)] + [(c, True, False) for c, _ in MUTANTS]
     if thorough:
-        jobs += [("MC_SecurityAlgorithms_repaired.cfg", False, False)]
+        # the three repaired defects seeded back: the Impl*Refines invariants then assert that the model deviates from the
+        # declarative layer exactly in the classes the switches name
+        jobs += [("MC_SecurityAlgorithms_seeded.cfg", False, False)]
 
     def mc(job):
         cfg, allow, cov = job
@@ -182,7 +186,7 @@ def run(tier):
             raise vlib.ToolError("mutant %s is not refuted by %s (got %s)" % (cfg, want, r.violation))
     chk.extra["mutants_refuted"] = len(MUTANTS)
     if thorough:
-        chk.add_tlc(res[3])         # the repaired design (no deviation switch) refines the declarative layer everywhere
+        chk.add_tlc(res[3])         # the design with the repaired defects seeded back deviates exactly where the switches say
     lines = emitted(r0)
     nterms, ncases, ngroups = check_generated(lines)
     chk.exhaustive = True
